@@ -171,19 +171,31 @@ fn statx_before(k: &Kernel, upto: usize, fd: i32) -> bool {
 }
 
 fn walk_body(is_symlink: bool) {
+    walk_body_t(is_symlink, false)
+}
+
+fn walk_body_t(is_symlink: bool, trailing_slash: bool) {
     install_close_model();
     reset(3);
     let root = given_fd(false);
-    // one component, symbolic bytes, no '/'
-    let buf: [u8; PATH_L] = kani::any();
-    let len: usize = kani::any();
+    // one component, symbolic bytes, no '/' (optionally followed by one '/')
+    let mut buf: [u8; PATH_L] = kani::any();
+    let mut len: usize = kani::any();
     kani::assume(len >= 1 && len <= PATH_L);
+    if trailing_slash {
+        kani::assume(len <= PATH_L - 1);
+    }
     let mut i = 0;
     while i < PATH_L {
         if i < len {
             kani::assume(buf[i] != b'/');
         }
         i += 1;
+    }
+    let comp_len = len;
+    if trailing_slash {
+        buf[len] = b'/';
+        len += 1;
     }
     let p = Path::new(OsStr::from_bytes(&buf[..len]));
     let bits: i32 = kani::any();
@@ -198,7 +210,25 @@ fn walk_body(is_symlink: bool) {
     std::mem::forget(res);
     let k = kref();
     assert!(!k.any_violation());
-    let dotdot = len == 2 && buf[0] == b'.' && buf[1] == b'.';
+    let dotdot = comp_len == 2 && buf[0] == b'.' && buf[1] == b'.';
+    if trailing_slash && !dotdot {
+        // "x/" is not "x": if the walk got past x it must also have looked up the empty
+        // trailing component (as "."), so that a non-directory x fails like the kernel
+        let mut last_open = NO_CALL;
+        let mut nopen = 0;
+        let mut q = 0;
+        while q < MAX_CALLS {
+            if q < k.ncalls && k.log[q].kind == C_OPENAT {
+                nopen += 1;
+                last_open = k.log[q];
+            }
+            q += 1;
+        }
+        if ok {
+            assert!(nopen >= 2, "trailing slash ignored");
+            assert!(last_open.name_len == 1 && last_open.name[0] == b'.', "trailing slash ignored");
+        }
+    }
     let mut j = 0;
     while j < MAX_CALLS {
         if j < k.ncalls {
@@ -299,4 +329,18 @@ macro_rules! walk_h {
 }
 use ::memchr as mc;
 walk_h!(rprocfs_walk_one_component_plain, false);
+
+#[kani::proof]
+#[kani::unwind(18)]
+#[kani::stub(crate::syscalls::openat_follow, k_openat_follow)]
+#[kani::stub(crate::syscalls::statx, k_statx)]
+#[kani::stub(crate::syscalls::readlinkat, k_readlinkat_body)]
+#[kani::stub(<std::os::unix::io::BorrowedFd<'static> as crate::utils::FdExt>::metadata, k_metadata_walk)]
+#[kani::stub(std::os::fd::BorrowedFd::try_clone_to_owned, DupStub::k_try_clone_to_owned)]
+#[kani::stub(mc::memchr::memchr, k_memchr)]
+#[kani::stub(mc::memchr::memrchr, k_memrchr)]
+#[kani::stub(alloc::fmt::format, k_format)]
+fn rprocfs_walk_trailing_slash() {
+    walk_body_t(false, true);
+}
 walk_h!(rprocfs_walk_one_component_symlink, true);
